@@ -141,7 +141,7 @@ contract(
     pure=True,
     # ghost witnesses: for each collected format the generation index and entry index where it was first seen
     ghost_init={"wg": ("list[int]", "hash_formats_none()"), "we": ("list[int]", "hash_formats_none()")},
-    ghost_updates={"hash_formats.append(hash_entry.hash_format)": [("wg", "wg + [_i0]"), ("we", "we + [_i1]")]},
+    ghost_updates={"hash_formats.append(hash_entry.hash_format)": [("wg", "append(wg, _i0)"), ("we", "append(we, _i1)")]},
     lemmas={"before: hash_formats.append(hash_entry.hash_format)": ["L_member(hash_formats, hash_entry.hash_format)"]},
     ensures=[
         # every returned format is recorded for the path (witnessed), every recorded format is returned, no duplicates
@@ -183,4 +183,22 @@ contract(
     ensures=["result == len(self.hash_lists)"],
     loops={0: Loop(invariant=["latest_number == _i"])},
     props=["C06"],
+)
+
+# --- lemmas over the history vocabulary (proved once, in an arbitrary heap) -----------------------------------------
+from vf.contracts import lemma
+
+lemma(
+    "L_first_excl",
+    params={"h": "MHLHistory", "p": "str", "f": "str", "r": "MHLHashEntry"},
+    requires=[is_first("h", "p", "f", "r")],
+    ensures=[f"not ({no_first('h', 'p', 'f')})"],
+    props=["C04"],
+)
+lemma(
+    "L_orig_excl",
+    params={"h": "MHLHistory", "p": "str", "r": "MHLHashEntry"},
+    requires=[is_orig("h", "p", "r")],
+    ensures=[f"not ({no_orig('h', 'p')})"],
+    props=["C04"],
 )
